@@ -9,7 +9,7 @@ Decides (writer discipline, both structures):
                 values loaded from the buffer
   R-MIN         (C01) bridge merge functions agree with the union-find's choice
 """
-from ..util import check_selects, whole_defs, edge_relation, fmt_atoms
+from ..util import check_selects, whole_defs, edge_relation, fmt_atoms, variant_is
 from . import min_common as mc
 from .rebuild_common import natural_loops
 
@@ -220,7 +220,7 @@ def check_uf_cas(chk, prog):
         for b in g.live:
             for s in g.succ[b]:
                 r = edge_relation(g, b, s)
-                if r and "variant" in r and r["variant"] == ["1"]:
+                if r and variant_is(r, 1):
                     at = g.origins(r["place"])
                     if any(x[0] == "call" and x[2] == c.bb for x in at):
                         reach = {s} | g.reach(s)
